@@ -176,6 +176,8 @@ func run(c *hlib.Ctx) {
 		for _, m := range corruptions(sm) {
 			s.tryAll(sm, m, "corruption")
 		}
+		// every property declaration switched between scalar and list, the body re-encoded to match
+		s.shapeSweep(sm)
 	}
 	// long lists (more genuine entries than the bounded pre-allocation holds) and the capacity ledger
 	thorough := c.N >= 1000
@@ -190,6 +192,9 @@ func run(c *hlib.Ctx) {
 		sm := randomStream(c.Rng)
 		s.tryAll(sm, sm.data, "random")
 	}
+	// mesh files near the accept boundary of IsStandardVertex / IsStandardFace, bodies consistent with the
+	// header (last, so that the PRNG stream of the generators above is what it was)
+	s.nearStandard(c.N * 2)
 }
 
 // ---------------------------------------------------------------------------
@@ -318,7 +323,10 @@ func buildCorpus(r *rand.Rand) []sample {
 var nastyTokens = []string{"0", "-1", "1", "3", "4", "2147483648", "4294967295", "-2147483649", "9223372036854775807",
 	"9223372036854775808", "99999999999999999999", "255", "256", "x", "1e999", "nan", "-0", "+5", "0x10", "1_0",
 	"uchar", "uint8", "int8", "float", "double", "int", "list", "property", "element", "comment", "end_header", "vertex", "face",
-	"endsolid", "endfacet", "facet", "solid", "OFF", "\xc2\xa0", "\""}
+	"endsolid", "endfacet", "facet", "solid", "OFF", "\xc2\xa0", "\"",
+	// counts whose product with a record / slot size wraps around: 50 n = 2^32 + 4 (binary STL record), 8 n = 2^32
+	// (a pointer per entry), 8 n = 2^64 -- a clamp or a size computed in a narrower type lets them through
+	"85899346", "536870912", "2305843009213693952"}
 
 // textRegion returns the length of the part of the file that is text (whole file, or the PLY header
 // of a binary PLY file; 0 for a binary STL).
@@ -430,7 +438,7 @@ func corruptions(sm sample) [][]byte {
 			}
 		}
 		if i+4 <= len(data) {
-			for _, v := range []uint32{0xffffffff, 0x80000000, 0x7fffffff, 0x00000080, 0xffffff7f} {
+			for _, v := range []uint32{0xffffffff, 0x80000000, 0x7fffffff, 0x00000080, 0xffffff7f, 0x10000000, 0x00000010} {
 				var b [4]byte
 				binary.BigEndian.PutUint32(b[:], v)
 				out = append(out, splice(data, i, i+4, b[:]))
@@ -443,7 +451,16 @@ func corruptions(sm sample) [][]byte {
 	// binary STL: the count field set to specific values
 	if sm.format == "stl" && nt == 0 && len(data) >= 84 {
 		n := binary.LittleEndian.Uint32(data[80:84])
-		for _, v := range []uint32{0, 1, n + 1, n - 1, 1 << 31, math.MaxUint32, 1 << 24} {
+		counts := []uint32{0, 1, n + 1, n - 1, 1 << 31, math.MaxUint32, 1 << 24}
+		// counts whose product with a size wraps around 32 bits: the smallest n with n*m >= j*2^32, for the
+		// record size (50), a pointer (8), a vertex (12), a coordinate triple of float64 (24), a triangle (72)
+		for _, m := range []uint64{50, 8, 12, 24, 72} {
+			for j := uint64(1); j <= 2; j++ {
+				counts = append(counts, uint32((j<<32+m-1)/m))
+			}
+		}
+		counts = append(counts, uint32((1<<32+4<<20)/50)) // the last n with 50 n <= 2^32 + 4 MiB
+		for _, v := range counts {
 			var b [4]byte
 			binary.LittleEndian.PutUint32(b[:], v)
 			out = append(out, splice(data, 80, 84, b[:]))
